@@ -77,6 +77,25 @@ def install(reg):
         p.ghost["sampler_result"] = out
         return out
 
+    # preconditioning transforms built by Aspire.init_sampler: inside the InitSampler contract (ghost flag) the constructors are replaced by a record of
+    # their keyword arguments (their own behaviour is CompositeInit's / the C04 contracts' business); everywhere else construction is the real one
+    def mk_new(cname):
+        key = f"{cname}.__new__"
+
+        def new(I, a, k, n):
+            if not I.path.ghost.get("record_transform_construction"):
+                h = I.reg.handlers.pop(key)
+                try:
+                    return I.construct(ClassRef(cname), a, k, n)
+                finally:
+                    I.reg.handlers[key] = h
+            o = Obj(cname, dict(k))
+            I.path.ghost.setdefault("constructed", []).append((cname, o, dict(k), list(a)))
+            return o
+        reg.handlers[key] = new
+    for _c in ("CompositeTransform", "FlowPreconditioningTransform"):
+        mk_new(_c)
+
     reg.sampler_sample = sampler_sample
     reg.handlers["Samples.__len__"] = lambda I, a, k, n: a[0].f.get("__len", IV(0))
 
@@ -1003,3 +1022,109 @@ class SMCSamplerInit(Contract):
 class BlackJAXSMCInit(SMCSamplerInit):
     qual = "samplers.smc.blackjax:BlackJAXSMC.__init__"
     cls = "BlackJAXSMC"
+
+
+# ------------------------------------------------------------------------------------------ Aspire.init_sampler (the real body; callers use InitSamplerModel)
+class InitSampler(InitSamplerModel):
+    qual = "aspire:Aspire.init_sampler"
+    properties = ("C11", "C13", "C20", "C05")
+    raises = {"ValueError": "unknown sampler type / unknown preconditioning"}
+    doc = ("the sampler built is of the class of `sampler_type` and holds the instance's callables, flow, namespace, dtype, parameter names and the given "
+           "constructor keywords (a generator is the very object given); its preconditioning transform is built from the instance's settings *by parameter "
+           "name*: every parameter gets the bounds stored under its own name, whatever order the bounds dictionary iterates in (an instance rebuilt from a "
+           "file has them in alphabetical order), periodic parameters and namespace / dtype are the instance's")
+
+    def shapes(self):
+        return [{"sampler": st, "precond": pc, "order": od} for st in ("importance", "smc", "emcee_smc", "minipcn", "blackjax_smc") for pc in (None, "none", "default", "flow")
+                for od in ("parameter", "alphabetical") if not (pc in (None, "none") and od == "alphabetical")]
+
+    def must_return(self, shape):
+        return True
+
+    def setup(self, I, shape):
+        names = ["mass", "chi"]                       # deliberately not in alphabetical order
+        bounds = {nm: base_arr(f"bounds_of_{nm}", "real", z3.IntVal(2)) for nm in names}
+        order = names if shape["order"] == "parameter" else sorted(names)
+        a = Obj("Aspire", {"log_likelihood": Fn(lambda I2, a, k, n: NONE, "user_log_likelihood"), "log_prior": Fn(lambda I2, a, k, n: NONE, "user_log_prior"),
+                           "dims": IV(2), "parameters": PyList([Str(nm) for nm in names]), "periodic_parameters": PyList([Str("chi")]),
+                           "prior_bounds": PyDict({nm: bounds[nm] for nm in order}), "bounded_to_unbounded": B(z3.Bool("cfg_b2u")), "bounded_transform": Str("logit"),
+                           "flow_matching": B(False), "flow_backend": Str("zuko"), "flow_kwargs": PyDict({"seed": IV(z3.Int("flow_seed"))}), "device": NONE,
+                           "xp": Sym(z3.Const("aspire_xp", Misc), "ns"), "dtype": Sym(z3.Const("aspire_dtype", Misc), "dtype"), "eps": R(z3.Real("cfg_eps")),
+                           "_flow": flow_obj("instance"), "_sampler": NONE})
+        rng = Sym(z3.Const("user_rng", Misc), "rng")
+        g = {"a": a, "names": names, "bounds": bounds, "shape": shape, "rng": rng, "built": []}
+
+        def rec(kind):
+            def hook(I2, info, bound, args, kwargs, n):
+                g["built"].append((kind, bound, dict(kwargs), list(args)))
+            return hook
+        g["hooks"] = {}
+        I.path.ghost["record_transform_construction"] = True
+        for cls in set(SAMPLER_TYPES.values()):
+            info = I.front.find_method(cls, "__init__")
+            g["hooks"][info.qualname] = rec("sampler:" + cls)
+        kw = {}
+        if shape["precond"] is not None:
+            kw["preconditioning"] = Str(shape["precond"])
+        _, ipos, ikwonly, _ = class_sig(I, SAMPLER_TYPES[shape["sampler"]], "__init__")
+        if "rng" in ipos + ikwonly:
+            kw["rng"] = rng
+        g["kw"] = kw
+        return Pre(a, [Str(shape["sampler"])], kw, ghost=g)
+
+    def hooks(self, I, pre):
+        return pre.ghost["hooks"]
+
+    def post(self, I, pre, r):
+        p, g = I.path, pre.ghost
+        q = self.qual
+        sh, a = g["shape"], g["a"]
+        cls = SAMPLER_TYPES[sh["sampler"]]
+        tag = f"[{sh['sampler']}, preconditioning={sh['precond']}, bounds stored in {sh['order']} order]"
+        p.prove(z3.BoolVal(isinstance(r, Obj) and r.cls == cls), f"{q}:C14:C11:the sampler is of the class of the requested type {tag}")
+        smp = [b for b in g["built"] if b[0].startswith("sampler:")]
+        # the most derived constructor call is the first recorded one (base-class __init__ calls follow through super())
+        if not smp:
+            p.prove(z3.BoolVal(False), f"{q}:a sampler is constructed {tag}")
+            return
+        kw = smp[0][2]
+        for k, want in (("log_likelihood", a.f["log_likelihood"]), ("log_prior", a.f["log_prior"]), ("prior_flow", a.f["_flow"]), ("xp", a.f["xp"]), ("dtype", a.f["dtype"]),
+                        ("parameters", a.f["parameters"]), ("dims", a.f["dims"])):
+            p.prove(z3.BoolVal(kw.get(k) is want), f"{q}:C05:C15:the sampler is given the instance's `{k}` {tag}")
+        if "rng" in g["kw"]:
+            p.prove(z3.BoolVal(kw.get("rng") is g["rng"]), f"{q}:C20:a generator among the constructor keywords is handed to the sampler's constructor {tag}")
+        trs = [({"CompositeTransform": "composite", "FlowPreconditioningTransform": "flow"}[c[0]], c[1], c[2], c[3]) for c in p.ghost.get("constructed", [])]
+        eff = sh["precond"] if sh["precond"] is not None else ("none" if sh["sampler"] == "importance" else "default")
+        if eff == "none":
+            p.prove(z3.BoolVal(not trs and isinstance(kw.get("preconditioning_transform"), NoneV)), f"{q}:C05:no preconditioning transform is built unless asked for {tag}")
+            return
+        p.prove(z3.BoolVal(len(trs) >= 1 and trs[0][0] == ("composite" if eff == "default" else "flow") and kw.get("preconditioning_transform") is trs[0][1]),
+                f"{q}:C05:C11:the transform of the requested kind is built and handed to the sampler {tag}")
+        if not trs:
+            return
+        tk = trs[0][2]
+        pb = tk.get("prior_bounds")
+        for nm in g["names"]:
+            ref = g["bounds"][nm]
+            if pb is a.f["prior_bounds"]:
+                goal = z3.BoolVal(True)
+            elif isinstance(pb, PyDict) and nm in pb.d:
+                v = pb.d[nm]
+                if v is ref:
+                    goal = z3.BoolVal(True)
+                elif isinstance(v, (Tup, PyList)) and len(v.items) == 2:
+                    goal = z3.And(to_real(v.items[0]) == ref.at(z3.IntVal(0)), to_real(v.items[1]) == ref.at(z3.IntVal(1)))
+                elif isinstance(v, Arr):
+                    goal = z3.And(v.at(z3.IntVal(0)) == ref.at(z3.IntVal(0)), v.at(z3.IntVal(1)) == ref.at(z3.IntVal(1)))
+                else:
+                    goal = z3.BoolVal(False)
+            else:
+                goal = z3.BoolVal(False)
+            p.prove(goal, f"{q}:C11:C13:C04:the preconditioning transform gets, for parameter `{nm}`, the bounds stored under that name {tag}")
+        p.prove(z3.BoolVal(tk.get("parameters") is a.f["parameters"] and tk.get("periodic_parameters") is a.f["periodic_parameters"]),
+                f"{q}:C11:C04:the preconditioning transform is built for the instance's parameters and periodic parameters {tag}")
+        p.prove(z3.BoolVal(tk.get("xp") is a.f["xp"] and tk.get("dtype") is a.f["dtype"]), f"{q}:C15:the preconditioning transform works in the instance's namespace and precision {tag}")
+        if eff == "flow":
+            fk = tk.get("flow_kwargs")
+            same = fk is a.f["flow_kwargs"] or (isinstance(fk, PyDict) and set(fk.d) == set(a.f["flow_kwargs"].d) and all(fk.d[k] is a.f["flow_kwargs"].d[k] for k in fk.d))
+            p.prove(z3.BoolVal(same), f"{q}:C20:the preconditioning flow is built with the instance's flow options (its seed included) {tag}")
